@@ -7,6 +7,7 @@ import A2Verif.Lemmas.FsProdosLockPath
 import A2Verif.Lemmas.FsProdosRetype
 import A2Verif.Lemmas.FsProdosRun
 import A2Verif.Lemmas.FsProdosHist
+import A2Verif.Props.C01
 import A2Verif.Props.C02
 import A2Verif.Props.C03
 import A2Verif.Props.C04
@@ -470,7 +471,41 @@ theorem prodos_unfound_is_unlisted {r : Raw} (hinv : Inv r) (v : Vol) (fsL : Lis
     (hv : isNameValid nn = true) (hnone : (dirSlots r 2 ch).find? (isHit allTypes nn) = none) : upper nn ∉ v.paths :=
   path_not_listed hinv v fsL ch hread htree nn hv hnone
 
-/-- **Refinement, one step** (volume-directory operations `delete`, `rename`, `lock`, `unlock`, `retype`) -/
+/-- **`put(fimg)` refines the abstract `put`** (C01–C05; file of the volume directory, file image of at most 256 chunk
+positions: seedling and sapling files, sparse ones included): whatever the outcome — refused before anything is read, refused
+by `prepare_to_write`, refused for lack of space, carried out — after `get_img()` the state is a state between two calls
+again and the readings before and after are related by the step the abstract specification allows for `put` with the reported
+result; a refused `put` changes nothing -/
+theorem prodos_put_refines {d : Disk} (hs : SInv d) (f : FImg) (time nm : Bytes) (pa : PutArgs f time) (h256 : f.end_ ≤ 256)
+    (hnodes : normalizePath (volName (hdrOf d.raw)) f.fullPath = .ok [volName (hdrOf d.raw), nm]) (hnm : nm ≠ []) :
+    Refines d (put f time repaired d)
+      (.put (upper nm) f.chunks f.eof (f.fsType.getD 0 0) (f.aux.getD 0 0 + 256 * f.aux.getD 1 0)) :=
+  put_refines' hs f time nm pa h256 hnodes hnm
+
+/-- **`blocks_needed` counts what `write_file` takes** (C04; at most 256 chunk positions): the chunks present, plus one
+index block exactly when the image has more than one chunk position -/
+theorem prodos_blocks_needed_small (f : FImg) (hk : (f.chunks.map (·.1)).Pairwise (· < ·)) (h : f.end_ ≤ 256) :
+    blocksNeeded f = dataCount f f.end_ + (if f.end_ > 1 then 1 else 0) := blocksNeeded_small f hk h
+
+/-- **C04, acceptance** (`fits-is-accepted`; volume directory, at most 256 chunk positions): a valid name that is not
+listed, a free slot in the volume directory, and `blocks_needed(fimg)` — data blocks plus the index block — not above the
+number of free blocks: `put` returns `Ok`, the step is the abstract `put`, and the free list shrinks by **exactly**
+`blocks_needed(fimg)` (so `write_file` takes neither more nor fewer blocks than were asked for) -/
+theorem prodos_fits_is_accepted {d : Disk} (hs : SInv d) (v : Vol) (fsL : List Read.ProdosT.LRec) (ch : List Nat)
+    (hr : Read.ProdosT.read d.raw = .ok v) (ht : Read.ProdosT.readTree d.raw (hdrTotal d.raw) = .ok (fsL, ch))
+    (f : FImg) (time nm : Bytes) (pk : PutOk f time) (h256 : f.end_ ≤ 256)
+    (hnodes : normalizePath (volName (hdrOf d.raw)) f.fullPath = .ok [volName (hdrOf d.raw), nm]) (hnm : nm ≠ [])
+    (hv : isNameValid nm = true)
+    (hnone : (dirSlots d.raw 2 ch).find? (isHit allTypes nm) = none)
+    (x : Bytes × Nat × Nat) (hslot : (dirSlots d.raw 2 ch).find? isFreeSlot = some x)
+    (hfit : blocksNeeded f ≤ v.freeUnits.length) :
+    ∃ d3 d4 v4, put f time repaired d = (.ok f.eof, d3) ∧ d3.flush = (.ok (), d4) ∧ SInv d4 ∧
+      Read.ProdosT.read d4.raw = .ok v4 ∧
+      stepOk prodosParams v (.put (upper nm) f.chunks f.eof (f.fsType.getD 0 0) (f.aux.getD 0 0 + 256 * f.aux.getD 1 0)) true v4 = true ∧
+      v4.label = v.label ∧ v4.freeUnits.length + blocksNeeded f = v.freeUnits.length :=
+  put_ok hs v fsL ch hr ht f time nm pk h256 hnodes hnm hv hnone x hslot hfit
+
+/-- **Refinement, one step** (volume-directory operations `put`, `delete`, `rename`, `lock`, `unlock`, `retype`) -/
 theorem prodos_step_refines {d : Disk} (hs : SInv d) (op : VOp) (hroot : op.Root (volName (hdrOf d.raw))) :
     SInv (op.exec d).2 ∧
     stepOk prodosParams (volOf d.raw) (op.abs (volName (hdrOf d.raw))) (op.exec d).1 (volOf (op.exec d).2.raw) = true ∧
@@ -553,5 +588,25 @@ theorem prodos_locked_file_survives (ops : List VOp) (d : Disk) (hs : SInv d) (h
   rcases hatt with h | ⟨r, h⟩
   · exact Or.inl h
   · exact Or.inr (Or.inl ⟨r, h⟩)
+
+/-- C01 for the concrete model: a file stored by an accepted `put` is read back — chunk for chunk, with its length, type
+and auxiliary type — from the image at the end of **any** history of volume-directory operations that do not name it -/
+theorem prodos_get_returns_last_put (f : FImg) (t : Bytes) (ops : List VOp) (d : Disk) (hs : SInv d)
+    (hroot : ∀ op ∈ VOp.put f t :: ops, op.Root (volName (hdrOf d.raw)))
+    (hok : ((VOp.put f t).exec d).1 = true)
+    (hq : ∀ op ∈ ops, nameOf (volName (hdrOf d.raw)) f.fullPath ∉ (op.abs (volName (hdrOf d.raw))).targets) :
+    ∃ g, (volOf (finalDisk d (VOp.put f t :: ops)).raw).lookup (nameOf (volName (hdrOf d.raw)) f.fullPath) = some g ∧
+      chunksMatch f.chunks g.chunks = true ∧ g.eof = f.eof ∧ g.isDir = false ∧ g.ftype = f.fsType.getD 0 0 ∧
+      g.aux = f.aux.getD 0 0 + 256 * f.aux.getD 1 0 := by
+  obtain ⟨h1, h2, h3⟩ := step_refines hs (.put f t) (hroot _ List.mem_cons_self)
+  rw [hok] at h2
+  obtain ⟨hv, _, heq⟩ := history_refines ops ((VOp.put f t).exec d).2 h1
+    (fun o ho => by rw [h3]; exact hroot o (List.mem_cons_of_mem _ ho))
+  rw [h3] at hv heq
+  obtain ⟨g, hg, _, hc, he, hd, hty, hax⟩ := C01.get_returns_last_put h2 hv (fun s hs' => by
+    obtain ⟨op, ho, e⟩ := mem_trace hs'
+    rw [e]; exact hq op ho)
+  rw [heq] at hg
+  exact ⟨g, hg, hc, he, hd, hty rfl, hax rfl⟩
 
 end A2Verif.FsProdos
